@@ -177,8 +177,8 @@ def evaluate(mut, slot_dirs, args, pf):
     scratch = os.path.join(args.out, "scratch", mut["id"])
     try:
         os.makedirs(scratch, exist_ok=True)
-        shutil.copytree(os.path.join(REPO, "socialchoicekit"), os.path.join(scratch, "socialchoicekit"))
-        shutil.copytree(os.path.join(REPO, "tests"), os.path.join(scratch, "tests"))
+        shutil.copytree(os.path.join(args.base, "socialchoicekit"), os.path.join(scratch, "socialchoicekit"))
+        shutil.copytree(os.path.join(args.base, "tests"), os.path.join(scratch, "tests"))
         open(os.path.join(scratch, "socialchoicekit", mut["file"]), "w").write(mut["src"])
         env = dict(os.environ, PYTHONPATH=scratch, PYTHONDONTWRITEBYTECODE="1")
         rc, txt = sh([PY, "-m", "pytest", "-q", "-x", "-p", "no:cacheprovider", "--timeout=60", "tests/unit",
@@ -216,7 +216,7 @@ def evaluate(mut, slot_dirs, args, pf):
         res["wall"] = round(time.time() - t0, 1)
         if res.get("status") in ("survived", "infra"):
             import difflib
-            base = ast.unparse(ast.parse(open(os.path.join(REPO, "socialchoicekit", mut["file"])).read()))
+            base = ast.unparse(ast.parse(open(os.path.join(args.base, "socialchoicekit", mut["file"])).read()))
             res["diff"] = "\n".join(l for l in difflib.unified_diff(base.split("\n"), mut["src"].split("\n"), lineterm="", n=2))[:1500]
         shutil.rmtree(scratch, ignore_errors=True)
         slot_dirs.put(slot)
@@ -238,10 +238,16 @@ def main():
     args.out = os.path.abspath(args.out)
     os.makedirs(args.out, exist_ok=True)
     pf = prop_files()
-    files = [f for f in args.files.split(",") if f] or sorted(f for f in os.listdir(os.path.join(REPO, "socialchoicekit")) if f.endswith(".py") and f != "__init__.py")
+    # a private snapshot of the package: /repo may be patched by other evaluations while the sweep runs
+    args.base = os.path.join(args.out, "base")
+    if not os.path.exists(args.base):
+        os.makedirs(args.base)
+        shutil.copytree(os.path.join(REPO, "socialchoicekit"), os.path.join(args.base, "socialchoicekit"))
+        shutil.copytree(os.path.join(REPO, "tests"), os.path.join(args.base, "tests"))
+    files = [f for f in args.files.split(",") if f] or sorted(f for f in os.listdir(os.path.join(args.base, "socialchoicekit")) if f.endswith(".py") and f != "__init__.py")
     muts = []
     for f in files:
-        src = open(os.path.join(REPO, "socialchoicekit", f)).read()
+        src = open(os.path.join(args.base, "socialchoicekit", f)).read()
         base = ast.unparse(ast.parse(src))
         seen = set()
         for desc, ln, out in enumerate_mutants(src):
@@ -271,7 +277,7 @@ def main():
         slots.put(d)
     # the preflib unit tests need the network and error out at baseline: 82 tests pass without that file? count it once
     rc, txt = sh([PY, "-m", "pytest", "-q", "-p", "no:cacheprovider", "tests/unit", "--deselect", "tests/unit/test_preflib_utils.py"],
-                 cwd=REPO, env=dict(os.environ, PYTHONPATH=REPO), timeout=600)
+                 cwd=args.base, env=dict(os.environ, PYTHONPATH=args.base), timeout=600)
     import re
     m = re.search(r"(\d+) passed", txt)
     args.min_passed = int(m.group(1)) if m else 82
